@@ -226,3 +226,14 @@ Proof.
     eapply IH; eauto. }
   destruct R' as [rd' [dn' [lg' R']]]. eapply no_blocked_receive; eauto.
 Qed.
+
+(* the correspondence check explores with fuel 40 (corr/HttpSched.v): enough for reply bodies of up to ten
+   frames, which is what the harness generates *)
+Theorem exploration_never_runs_out_of_fuel s acc :
+  (length (body s) <= 10)%nat -> ~ In None (explore 40 s acc).
+Proof.
+  intro Hb. apply explore_has_enough_fuel. unfold mu.
+  assert (ph_w (rph s) <= 5)%nat by (destruct (rph s); cbn; lia).
+  assert (pd_w (pCR s) <= 4)%nat by (destruct (pCR s) as [[]|]; cbn; lia).
+  lia.
+Qed.
